@@ -80,3 +80,13 @@ def install(e):
                  None)],
         props=("C05", "C06", "C17"),
         doc="normal => rfc_ok (no must-reject close code); protocol exception => not rfc_ok (must-accept codes)"))
+
+
+def lemma_trap(e):
+    x = z3.Int("x")
+    e.lemma("utf8.trap_absorbing.step", [], z3.ForAll([x], spec.step_u(z3.IntVal(spec.U_TRAP), x) == spec.U_TRAP), props=("C06",))
+    s_ = z3.Int("s")
+    e.lemma("utf8.step_total", [], z3.ForAll([s_, x], z3.Implies(z3.And(0 <= s_, s_ <= 8), z3.And(0 <= spec.step_u(s_, x), spec.step_u(s_, x) <= 8))), props=("C06",))
+
+
+LEMMAS = {"lemma:utf8.trap_absorbing": lemma_trap}
